@@ -1,42 +1,129 @@
-(* ServerProofs.v — lemmas about Model/Server.v (property C09). *)
+(* ServerProofs.v — concrete runs of Model/Server.v (property C09): the refutations that remain after the
+   fixes `an update with an older document version never replaces a newer text` and `the identifier
+   dictionary of a source file survives later updates`, and the old witnesses, which now end well. *)
 Require Import Base Server.
 
-(* ================================================================================================
-   1. Refutations on the faithful model (findings F17a, F17b, F28).  Witnesses are concrete; each is
-      replayed on the real Backend by the harness (corpus/C09).
-   ================================================================================================ *)
 Definition uA : url := UFile 0 0.
 Definition uB : url := UFile 0 1.
 Definition tx (n : nat) : text := mktext n 0.
 
-(* --- F17a: two did_change in flight, handled in the opposite order ------------------------------ *)
-Definition reorder_history : list op := [Open uA LPlain (tx 0); Change uA (tx 1); Change uA (tx 2)].
-(* handler 0 (did_open) alone; then both did_change are admitted; handler 2 runs to completion
-   (8 instrs) before handler 1 *)
+(* ================================================================================================
+   1. F17a, what is left of it.  The version check orders the didChange handlers of a document that
+      doc_state holds; it does not help where no version is compared.
+   ================================================================================================ *)
+
+(* --- two did_change in flight, handled in the opposite order: the OLD witness of F17a.  The late
+       handler now returns before it touches the document; its publication shows the newer text. ---- *)
+Definition reorder_history : list op := [Open uA LPlain (tx 0) 1; Change uA (tx 1) 2; Change uA (tx 2) 3].
 Definition reorder_schedule : list choice :=
   CAdmit :: repeat (CRun 0) 8 ++ [CAdmit; CAdmit] ++ repeat (CRun 2) 8 ++ repeat (CRun 1) 8.
-(* the same at client-interaction granularity: both ask for the configuration, the client's answer
-   to the second one is processed first *)
 Definition reorder_kschedule : list kchoice :=
   [KAdmit; KRun 0; KRun 0; KAdmit; KAdmit; KRun 1; KRun 2; KRun 2; KRun 1].
 
-Lemma reorder_refuted :
+Lemma reorder_now_fresh :
   exists y, run reorder_schedule (init reorder_history (world0 0)) = Some y /\ quiescent y /\
+    freshb (y_world y) uA = true /\
+    exists a, lastword (y_world y) uA = PDiag a /\ a_text a = tx 2 /\ length (s_log (y_world y)) = 3.
+Proof.
+  eexists. split; [vm_compute; reflexivity|]. split; [split; reflexivity|]. split; [vm_compute; reflexivity|].
+  eexists. repeat split; vm_compute; reflexivity.
+Qed.
+
+Lemma reorder_now_fresh_k :
+  exists y, krun reorder_kschedule (init reorder_history (world0 0)) = Some y /\ quiescent y /\
+    freshb (y_world y) uA = true.
+Proof. eexists. split; [vm_compute; reflexivity|]. split; [split; reflexivity|vm_compute; reflexivity]. Qed.
+
+(* --- a did_change overtakes the did_open of its document: it finds no entry, inserts one without a
+       language and removes it again (the version goes with it); the did_open then installs the older
+       text ------------------------------------------------------------------------------------------ *)
+Definition open_change_history : list op := [Open uA LPlain (tx 0) 1; Change uA (tx 1) 2].
+Definition open_change_schedule : list choice := [CAdmit; CAdmit] ++ repeat (CRun 1) 8 ++ repeat (CRun 0) 8.
+
+Lemma change_overtakes_open :
+  exists y, run open_change_schedule (init open_change_history (world0 0)) = Some y /\ quiescent y /\
     exists a b, lastword (y_world y) uA = PDiag a /\ expected (y_world y) uA = PDiag b /\
-                a_text a = tx 1 /\ a_text b = tx 2 /\ pubval (y_world y) uA = PDiag a.
+                a_text a = tx 0 /\ a_text b = tx 1 /\ pubval (y_world y) uA = PDiag a.
 Proof.
   eexists. split; [vm_compute; reflexivity|]. split; [split; reflexivity|].
   do 2 eexists. repeat split; vm_compute; reflexivity.
 Qed.
 
-Lemma reorder_refuted_k :
-  exists y, krun reorder_kschedule (init reorder_history (world0 0)) = Some y /\ quiescent y /\
-    freshb (y_world y) uA = false.
-Proof. eexists. split; [vm_compute; reflexivity|]. split; [split; reflexivity|vm_compute; reflexivity]. Qed.
+(* --- a did_close overtakes the did_open: the closed document ends with diagnostics ---------------- *)
+Definition close_open_history : list op := [Open uA LPlain (tx 0) 1; Close uA].
+Definition close_open_schedule : list choice := [CAdmit; CAdmit; CRun 1; CRun 1] ++ repeat (CRun 0) 8.
 
-(* --- F17b: handlers that re-read the FILE while the buffer has unsaved changes ------------------ *)
+Lemma close_overtakes_open :
+  exists y, run close_open_schedule (init close_open_history (world0 0)) = Some y /\ quiescent y /\
+    lookup uA (w_open (y_world y)) = None /\ expected (y_world y) uA = PEmpty /\
+    exists a, lastword (y_world y) uA = PDiag a /\ pubval (y_world y) uA = PDiag a.
+Proof.
+  eexists. split; [vm_compute; reflexivity|]. split; [split; reflexivity|].
+  split; [vm_compute; reflexivity|]. split; [vm_compute; reflexivity|].
+  eexists. split; vm_compute; reflexivity.
+Qed.
+
+(* --- a did_change overtakes a did_save: the save re-reads the file (the text of the moment it was
+       written) and carries no version, so nothing stops it from replacing the newer text ------------- *)
+Definition save_change_history : list op := [Open uA LPlain (tx 0) 1; Save uA; Change uA (tx 1) 2].
+Definition save_change_schedule : list choice :=
+  CAdmit :: repeat (CRun 0) 8 ++ [CAdmit; CAdmit] ++ repeat (CRun 2) 8 ++ repeat (CRun 1) 9.
+
+Lemma change_overtakes_save :
+  exists y, run save_change_schedule (init save_change_history (world0 0)) = Some y /\ quiescent y /\
+    exists a b, lastword (y_world y) uA = PDiag a /\ expected (y_world y) uA = PDiag b /\
+                a_text a = tx 0 /\ a_text b = tx 1.
+Proof.
+  eexists. split; [vm_compute; reflexivity|]. split; [split; reflexivity|].
+  do 2 eexists. repeat split; vm_compute; reflexivity.
+Qed.
+
+(* --- dictionary race: a did_change has read the dictionary files when HarperAddToUserDict (sent before
+       it, for another document) writes the word; the change then installs the old dictionary.  Handled
+       one at a time the same messages end well (dict_race_sequential). ------------------------------ *)
+Definition dict_race_history : list op := [Open uA LPlain (tx 0) 1; AddUser 5 uB; Change uA (tx 1) 2].
+Definition dict_race_schedule : list choice :=
+  CAdmit :: repeat (CRun 0) 8 ++ [CAdmit; CAdmit] ++ repeat (CRun 2) 6 ++ repeat (CRun 1) 5 ++ repeat (CRun 2) 2.
+
+Lemma dict_race :
+  exists y, run dict_race_schedule (init dict_race_history (world0 0)) = Some y /\ quiescent y /\
+    exists a b, lastword (y_world y) uA = PDiag a /\ expected (y_world y) uA = PDiag b /\
+                a_text a = tx 1 /\ a_text b = tx 1 /\ dv_user (a_dict a) = [] /\ dv_user (a_dict b) = [5].
+Proof.
+  eexists. split; [vm_compute; reflexivity|]. split; [split; reflexivity|].
+  do 2 eexists. repeat split; vm_compute; reflexivity.
+Qed.
+
+Lemma dict_race_sequential :
+  exists w, run_seq dict_race_history (world0 0) = Some w /\ freshb w uA = true.
+Proof. eexists. split; vm_compute; reflexivity. Qed.
+
+(* --- F17f (new with the version check): the check sits AFTER the dictionary refresh.  An outdated
+       did_change of a source file that arrives after the user dictionary has changed resets
+       dict / ident_dict / linter to the dictionary without identifiers and then returns: the identifiers
+       are not merged again, the newest text is re-published with them reported as misspelt. ----------- *)
+Definition code_text (n : nat) : text := mktext n 7.
+Definition stale_update_history : list op :=
+  [Open uA LCode (code_text 0) 1; Change uA (code_text 1) 2; Change uA (code_text 2) 3; AddUser 5 uB].
+Definition stale_update_schedule : list choice :=
+  CAdmit :: repeat (CRun 0) 11 ++ [CAdmit; CAdmit; CAdmit] ++ repeat (CRun 2) 8 ++ repeat (CRun 3) 5 ++ repeat (CRun 1) 8.
+
+Lemma stale_update_drops_identifiers :
+  exists y, run stale_update_schedule (init stale_update_history (world0 0)) = Some y /\ quiescent y /\
+    exists a b, lastword (y_world y) uA = PDiag a /\ expected (y_world y) uA = PDiag b /\
+                a_text a = code_text 2 /\ a_text b = code_text 2 /\
+                dv_user (a_dict a) = [5] /\ dv_user (a_dict b) = [5] /\
+                dv_ident (a_dict a) = 0 /\ dv_ident (a_dict b) = 7.
+Proof.
+  eexists. split; [vm_compute; reflexivity|]. split; [split; reflexivity|].
+  do 2 eexists. repeat split; vm_compute; reflexivity.
+Qed.
+
+(* ================================================================================================
+   2. F17b, F17c, F17d (unchanged): handlers that re-read the FILE, one handler at a time.
+   ================================================================================================ *)
 Definition disk_world : world := set_disk [(uA, tx 9)] (world0 0).
-Definition disk_history (o : op) : list op := [Open uA LPlain (tx 0); Change uA (tx 1); o].
+Definition disk_history (o : op) : list op := [Open uA LPlain (tx 0) 1; Change uA (tx 1) 2; o].
 
 Definition shows_disk_text (o : op) : Prop :=
   exists w, run_seq (disk_history o) disk_world = Some w /\
@@ -51,13 +138,13 @@ Qed.
 (* did_save re-reads the file as well; it is harmless exactly because the client has written the
    buffer to the file before it sends the notification *)
 Lemma save_rereads_disk :
-  exists w, run_seq [Open uA LPlain (tx 0); Change uA (tx 1); Save uA] disk_world = Some w /\
+  exists w, run_seq [Open uA LPlain (tx 0) 1; Change uA (tx 1) 2; Save uA] disk_world = Some w /\
     lookup uA (w_disk w) = Some (tx 1) /\ freshb w uA = true.
 Proof. eexists. split; [vm_compute; reflexivity|]. split; vm_compute; reflexivity. Qed.
 
 (* --- the user dictionary is global, only the document named in the command is re-linted ---------- *)
 Lemma other_document_stale :
-  exists w, run_seq [Open uA LPlain (tx 0); Open uB LPlain (tx 1); Save uA; Save uB; AddUser 5 uA] (world0 0) = Some w /\
+  exists w, run_seq [Open uA LPlain (tx 0) 1; Open uB LPlain (tx 1) 1; Save uA; Save uB; AddUser 5 uA] (world0 0) = Some w /\
     freshb w uA = true /\
     exists a b, lastword w uB = PDiag a /\ expected w uB = PDiag b /\
                 dv_user (a_dict a) = [] /\ dv_user (a_dict b) = [5].
@@ -68,19 +155,19 @@ Qed.
 
 (* --- untitled buffers cannot be re-read: the command republishes the old check --------------------- *)
 Lemma untitled_stale :
-  exists w, run_seq [Open (UUntitled 1) LPlain (tx 0); AddUser 5 (UUntitled 1)] (world0 0) = Some w /\
+  exists w, run_seq [Open (UUntitled 1) LPlain (tx 0) 1; AddUser 5 (UUntitled 1)] (world0 0) = Some w /\
     exists a b, lastword w (UUntitled 1) = PDiag a /\ expected w (UUntitled 1) = PDiag b /\
                 dv_user (a_dict a) = [] /\ dv_user (a_dict b) = [5].
 Proof. eexists. split; [vm_compute; reflexivity|]. do 2 eexists. repeat split; vm_compute; reflexivity. Qed.
 
-(* --- F28: the identifier dictionary of a code document is dropped by the second update ------------ *)
-Definition code_text : text := mktext 0 7.
-Lemma ident_refuted :
-  exists w, run_seq [Open uA LCode code_text; Change uA code_text] (world0 0) = Some w /\
-    exists a b, lastword w uA = PDiag a /\ expected w uA = PDiag b /\
-                a_text a = a_text b /\ dv_ident (a_dict a) = 0 /\ dv_ident (a_dict b) = 7.
-Proof. eexists. split; [vm_compute; reflexivity|]. do 2 eexists. repeat split; vm_compute; reflexivity. Qed.
-(* ... while the same text freshly opened is checked with its identifiers *)
-Lemma ident_fresh_open :
-  exists w, run_seq [Open uA LCode code_text] (world0 0) = Some w /\ freshb w uA = true.
-Proof. eexists. split; vm_compute; reflexivity. Qed.
+(* ================================================================================================
+   3. F17e is repaired: the old witness (the second update of a source file) keeps the identifiers.
+   ================================================================================================ *)
+Lemma ident_survives_update :
+  exists w, run_seq [Open uA LCode (code_text 0) 1; Change uA (code_text 0) 2] (world0 0) = Some w /\
+    freshb w uA = true /\
+    exists a, lastword w uA = PDiag a /\ dv_ident (a_dict a) = 7 /\ dv_ident (a_ddict a) = 7.
+Proof.
+  eexists. split; [vm_compute; reflexivity|]. split; [vm_compute; reflexivity|].
+  eexists. repeat split; vm_compute; reflexivity.
+Qed.
